@@ -594,8 +594,38 @@ def quadratic_add_linear():
                 header='fn add(self, rhs: Linear) -> (r: Quadratic)\n        ensures ' + contract('add', 'Quadratic', 'Linear', 'Quadratic') + '\n            r.rows == self.rows && r.columns == self.columns && r.values == self.values,')
 
 
+# the operator impls that are macro instances on the pinned tree: an instance that disappears means that operator is now implemented by other code, which no contract covers -
+# the check must not silently shrink (seed C02 r10: two impl_sub_by_neg_add! instances replaced by hand-written impls)
+MACRO_INVENTORY = {
+    'linear.rs': ['impl_add_inverse!(f64, Linear)', 'impl_sub_by_neg_add!(Linear, f64)', 'impl_sub_by_neg_add!(Linear, Linear)', 'impl_mul_inverse!(f64, Linear)', 'impl_neg_by_mul!(Linear)'],
+    'quadratic.rs': ['impl_add_inverse!(Linear, Quadratic)', 'impl_add_inverse!(f64, Quadratic)', 'impl_sub_by_neg_add!(Quadratic, Linear)', 'impl_sub_by_neg_add!(Quadratic, f64)',
+                     'impl_sub_by_neg_add!(Quadratic, Quadratic)', 'impl_mul_from!(Quadratic, Linear, Polynomial)', 'impl_mul_inverse!(Linear, Quadratic)', 'impl_mul_inverse!(f64, Quadratic)', 'impl_neg_by_mul!(Quadratic)'],
+    'polynomial.rs': ['impl_add_from!(Polynomial, f64)', 'impl_add_from!(Polynomial, Linear)', 'impl_add_from!(Polynomial, Quadratic)', 'impl_add_inverse!(f64, Polynomial)', 'impl_add_inverse!(Linear, Polynomial)',
+                      'impl_add_inverse!(Quadratic, Polynomial)', 'impl_sub_by_neg_add!(Polynomial, Polynomial)', 'impl_mul_from!(Polynomial, Linear, Polynomial)', 'impl_mul_from!(Polynomial, Quadratic, Polynomial)',
+                      'impl_mul_inverse!(f64, Polynomial)', 'impl_mul_inverse!(Linear, Polynomial)', 'impl_mul_inverse!(Quadratic, Polynomial)', 'impl_neg_by_mul!(Polynomial)'],
+    'v1_ext/function.rs': ['impl_add_from!(Function, f64)', 'impl_add_from!(Function, Linear)', 'impl_add_from!(Function, Quadratic)', 'impl_add_from!(Function, Polynomial)',
+                           'impl_add_inverse!(f64, Function)', 'impl_add_inverse!(Linear, Function)', 'impl_add_inverse!(Quadratic, Function)', 'impl_add_inverse!(Polynomial, Function)',
+                           'impl_sub_by_neg_add!(Function, Function)', 'impl_sub_by_neg_add!(Function, f64)', 'impl_sub_by_neg_add!(Function, Linear)', 'impl_sub_by_neg_add!(Function, Quadratic)',
+                           'impl_sub_by_neg_add!(Function, Polynomial)', 'impl_neg_by_mul!(Function)', 'impl_mul_from!(Function, f64, Function)', 'impl_mul_from!(Function, Linear, Function)',
+                           'impl_mul_from!(Function, Quadratic, Function)', 'impl_mul_from!(Function, Polynomial, Function)', 'impl_mul_inverse!(f64, Function)', 'impl_mul_inverse!(Linear, Function)',
+                           'impl_mul_inverse!(Quadratic, Function)', 'impl_mul_inverse!(Polynomial, Function)'],
+}
+
+
+def check_macro_inventory():
+    for file, want in MACRO_INVENTORY.items():
+        have = set()
+        for mac in ('impl_add_from', 'impl_add_inverse', 'impl_sub_by_neg_add', 'impl_mul_from', 'impl_mul_inverse', 'impl_neg_by_mul'):
+            for args, ln in core.macro_invocations(file, mac):
+                have.add('%s!(%s)' % (mac, ', '.join(args)))
+        for w in want:
+            if w not in have:
+                raise core.LostAnchor('operator impl %s of %s is no longer a macro instance: the code that now implements it is under no contract' % (w, file))
+
+
 def typed_macro_units():
     """macro instances between typed operands whose callees are all verified units: linear.rs, and the Linear-operand instances of quadratic.rs"""
+    check_macro_inventory()
     U = []
     NEG = {'f64': 'neg_f64', 'Linear': 'neg_linear', 'Quadratic': 'neg_quadratic', 'Polynomial': 'neg_polynomial'}
 
